@@ -90,7 +90,16 @@ def execute(sc, ctx, want=('C02',)):
     else:
         out.probe('shipped_module')
         out.nontrivial = True
-    axioms, claims = _p.declared_of(mod)
+    try:
+        axioms, claims = _p.declared_of(mod)
+    except _p.T.Abort as e:
+        # the module holds a term that is an illegal instantiation by the documented judgement (the toolkit accepted it:
+        # findings D5 / D12).  Whether the checker takes it is C02's question; there is no declaration to compare for C03.
+        out.event('declared term is illegal', str(e)[:80])
+        if 'C02' not in want:
+            out.refused = True
+            return out
+        axioms, claims = [], []
     if len(axioms) >= 3: out.probe('axioms_ge3')
     if 'C03' in want and (len(axioms) >= 2 or len(claims) >= 2): out.nontrivial = True
     if any(_p.B.from_py(c) != _p.B.py_expand(c) for c in mod._claims): out.probe('notation_in_claim')
@@ -216,7 +225,10 @@ def _grow(g, mod, fs, ctx, out, want):
         mod.add_claim(th.conc)
         mod.add_proof_expression(th)
         out.probe('grown_claim')
-    axioms, claims = _p.declared_of(mod)
+    try:
+        axioms, claims = _p.declared_of(mod)
+    except _p.T.Abort:
+        return
     base = '/sim/out_grown'
     try:
         _p.serialise(mod, fs, base, 'binary', g['optimize'])
